@@ -685,6 +685,23 @@ fn random_call(rng: &mut Rng, w: &World) -> Value {
     if has_paych && rng.chance(8) {
         return json!({"a": "Retire", "from": ["key", "k1"]});
     }
+    // life-cycle bias: destroy a CREATE2 child, later re-create it at the same address (resurrection)
+    if rng.chance(12) {
+        let c2s: Vec<&Value> = st["act"].as_array().unwrap().iter()
+            .filter(|a| a[1]["code"] == "evm" && a[1]["addr"][0] == "c2").collect();
+        if !c2s.is_empty() {
+            let x = *rng.pick(&c2s);
+            let name = &x[1]["addr"];
+            return if x[1]["tomb"] == 0 && x[1]["hc"] == true {
+                json!({"a": "Invoke", "from": ["key", "k1"], "to": name.clone(),
+                       "prog": [{"op": "destroy", "ben": ["caller"]}]})
+            } else {
+                json!({"a": "Invoke", "from": ["key", "k1"], "to": name[1].clone(),
+                       "prog": [{"op": "create2", "salt": name[2].clone(), "init": name[3].clone()},
+                                {"op": "call", "to": ["last"], "prog": [{"op": "create", "init": "ok"}]}]})
+            };
+        }
+    }
     let from = rng.pick(&senders).clone();
     let users = [json!(["key", "k1"]), json!(["key", "k2"]), json!(["raw", "e1"])];
     match rng.below(100) {
